@@ -347,6 +347,29 @@ def probe_maps(gen, spec):
     if k is not None and len(newp) < 65000:
         mr["records"][k]["_string_id"] = n + 3
         out.append(("editor:probe-interleaved-string-copies", with_sections({b"STR ": newp, b"MRGN": refchk.build(L[b"MRGN"], mr)})))
+    # 5b. a location whose name is read from the MIDDLE of another stored string (string-table compression: "probe tail
+    #     text" shares the bytes of "xx probe tail text"): the text already exists, an unedited save adds nothing
+    whole = b"xx probe tail text"
+    offs = [struct.unpack_from("<H", strp, 2 + 2 * i)[0] + 4 for i in range(n)]
+    w_off = len(strp) + 4
+    newp = struct.pack("<H", n + 2) + b"".join(struct.pack("<H", o) for o in offs + [w_off, w_off + 3]) + strp[2 + 2 * n:] + whole + b"\x00"
+    mr = refchk.fields_of(L[b"MRGN"], dict(chunks)[b"MRGN"])
+    k = next((i for i, r in enumerate(mr["records"]) if any(r.values())), None)
+    if k is not None and len(newp) < 65000:
+        mr["records"][k]["_string_id"] = n + 2
+        out.append(("editor:probe-name-inside-another-string", with_sections({b"STR ": newp, b"MRGN": refchk.build(L[b"MRGN"], mr)})))
+    # 5c. location slots of no extent: unnamed with an elevation word (a zero-sized "ground only" location that a trigger
+    #     later centres on a unit), named with word 0, named with a word — each slot is a location, none a placeholder
+    mr = refchk.fields_of(L[b"MRGN"], dict(chunks)[b"MRGN"])
+    empties = [i for i, r in enumerate(mr["records"]) if not any(r.values()) and i != 63]
+    named = next((r["_string_id"] for r in mr["records"] if r["_string_id"]), 0)
+    if len(empties) >= 3:
+        mr["records"][empties[0]]["_elevation_flags"] = 0b111000
+        if named:
+            mr["records"][empties[1]]["_string_id"] = named
+            mr["records"][empties[2]]["_string_id"] = named
+            mr["records"][empties[2]]["_elevation_flags"] = 0b000101
+        out.append(("editor:probe-locations-of-no-extent", with_sections({b"MRGN": refchk.build(L[b"MRGN"], mr)})))
     # 6. every weapon some unit carries has its own non-zero base and upgrade damage, and every unit its own hit
     #    points: each value comes back where it was
     repl = {}
